@@ -30,7 +30,9 @@
 (*   LoadOK     load_state_dict returns normally                           *)
 (*   Restored   per variable, by class: persisted / derived -> value of A   *)
 (*              at the checkpoint; config -> unchanged and equal to A's    *)
-(*   LoadEq     right after load all groups of B equal A's                 *)
+(*   LoadEq     right after load all groups of B equal A's; `out` then     *)
+(*              holds what the classifier predicts (both modes) BEFORE any *)
+(*              further update                                             *)
 (*   OutEq / StateEq / RegEq / PubEq   at every later step                 *)
 (***************************************************************************)
 EXTENDS Integers, Sequences, FiniteSets, TLC, Json, IOUtils, TLCExt
@@ -69,7 +71,7 @@ Failed(t, s, e) ==
     [] e.op.a = "load" ->
          IF e.ret.t # "ok" THEN {"LoadOK"}
          ELSE (IF NotRestored(tb, s.saved, e.ret.before, e.ret.after) # {} THEN {"Restored"} ELSE {})
-              \cup (IF GroupDiff(e.ret.a, e.ret.b) \ {"OutEq"} # {} THEN {"LoadEq"} ELSE {})
+              \cup (IF GroupDiff(e.ret.a, e.ret.b) # {} THEN {"LoadEq"} ELSE {})
     [] e.op.a = "step" -> IF s.phase = "loaded" THEN GroupDiff(e.ret.a, e.ret.b) ELSE {}
     [] OTHER -> {"UnknownEvent"}
 
